@@ -71,7 +71,7 @@ def jQuery (j : Json) : Except String Query := do
 def jHOp (j : Json) : Except String HOp := do
   match ← jArr j with
   | .str "q" :: _ => pure (.ask (← jQuery j))
-  | _ => pure (.mut (← jMut j))
+  | _ => pure (.edit (← jMut j))
 
 def errClass : Err → Json
   | .keyError _ => .str "KeyError"
@@ -108,7 +108,7 @@ def runAll (start : Nat) : Nat → State → List HOp → List Json → List Jso
   | i, s, h :: rest, acc =>
     let (s', o) : State × Json :=
       match h with
-      | .mut op =>
+      | .edit op =>
         let r := step s op
         (r.1, obs r.1 (match r.2 with | .ok () => .str "ok" | .error e => errClass e) .null)
       | .ask q =>
